@@ -7,9 +7,9 @@ From NngV Require Import Gen.Consts Proto.Common Proto.SurveyModel Proto.Respond
 Definition resp_fix_cur : resp_fix := mkRfix C07_RESP_NB_FIXED C07_RESP_WBUSY_FIXED C07_RESP_RCLOSE_FIXED C07_RESP_SBUSY_FIXED C07_RESP_WOTHER_FIXED C07_RESP_WSTALE_FIXED.
 Definition surv_step_cur := surv_step C07_SURV_NBRECV_FIXED.
 Definition resp_step_cur := resp_step resp_fix_cur.
-Definition mq_fix_cur : mq_fix := mkMqfix C07_MSGQ_NB_FIXED C07_MSGQ_RESIZE_FIXED.
+Definition mq_fix_cur : mq_fix := mkMqfix3 C07_MSGQ_NB_FIXED C07_MSGQ_RESIZE_FIXED C07_MSGQ_GET_RUNS_PUTQ.
 Definition xsurv_step_cur := xsurv_step mq_fix_cur.
 Definition xresp_step_cur := xresp_step mq_fix_cur.
 (* for the driver: which repairs are in force (printed in the evidence) *)
 Definition c07_fix_flags : list bool :=
-  (C07_SURV_NBRECV_FIXED :: C07_RESP_NB_FIXED :: C07_RESP_WBUSY_FIXED :: C07_RESP_RCLOSE_FIXED :: C07_MSGQ_NB_FIXED :: C07_MSGQ_RESIZE_FIXED :: C07_RESP_SBUSY_FIXED :: C07_RESP_WOTHER_FIXED :: C07_RESP_WSTALE_FIXED :: nil).
+  (C07_SURV_NBRECV_FIXED :: C07_RESP_NB_FIXED :: C07_RESP_WBUSY_FIXED :: C07_RESP_RCLOSE_FIXED :: C07_MSGQ_NB_FIXED :: C07_MSGQ_RESIZE_FIXED :: C07_RESP_SBUSY_FIXED :: C07_RESP_WOTHER_FIXED :: C07_RESP_WSTALE_FIXED :: C07_MSGQ_GET_RUNS_PUTQ :: nil).
